@@ -85,6 +85,7 @@ CoreSMTSolver::CoreSMTSolver(SMTConfig & c, THandler& t )
       //
     , expensive_ccmin  ( true )
     , learntsize_adjust_start_confl (0)
+    , learntsize_adjust_inc         (1.5)
       // Statistics: (formerly in 'SolverStats')
       //
     , solves(0), starts(0), decisions(0), rnd_decisions(0), propagations(0), conflicts(0), conflicts_last_update(0)
